@@ -15,6 +15,9 @@
     PX(p)->contexts.ll_offset == offsetof(req0_ctx, pipe_node))
 #define AIO_OPT(a) ((a) == NULL || __CPROVER_is_fresh((a), sizeof(nni_aio)))
 #define MSG_OPT(m) ((m) == NULL || MSG_PRE(m))
+/* a retained request as a harness object: only its reference count is ever touched by the functions that
+ * use this form (the body is left nondeterministic; any access to it would fail the pointer checks) */
+#define MSGOBJ_PRE(m) (OBJ_OK((m), struct nng_msg) && (m)->m_refcnt.v >= 1 && (m)->m_refcnt.v < 1000)
 #define SOCK_PRE (OBJ_OK(g_sock, struct req0_sock) && REQ_SOCK_LISTS_OK(SOCK) && g_pollr_addr == &SOCK->readable && g_pollw_addr == &SOCK->writable && g_idm_addr == &SOCK->requests)
 #define LIST_IS_THREE(l, n1, n2, n3)                                       \
 	((l)->ll_head.ln_next == (n1) && (n1)->ln_next == (n2) && (n2)->ln_next == (n3) && (n3)->ln_next == L_HEAD(l) && \
@@ -212,8 +215,8 @@ __CPROVER_ensures(LIST_IS_TWO(&SOCK->retry_queue, &C1->retry_node, &C2->retry_no
 #define PC_KPRE_0(c) (CTX_OK(c) && (c)->req_retry <= 0 && (c)->req_msg == NULL && (c)->request_id == 0 && (c)->send_aio == NULL && (c)->recv_aio == NULL && MSG_OPT((c)->rep_msg) && NODE_IDLE(&(c)->send_node) && NODE_IDLE(&(c)->retry_node))
 #define PC_KPRE_1(c) (CTX_OK(c) && (c)->req_retry <= 0 && (c)->req_msg != NULL && (c)->request_id >= 0x80000000u && (c)->send_aio == NULL && AIO_OPT((c)->recv_aio) && (c)->rep_msg == NULL && NODE_IDLE(&(c)->send_node) && NODE_IDLE(&(c)->retry_node))
 #define PC_KPRE_2(c) (CTX_OK(c) && (c)->req_retry > 0 && (c)->req_msg == NULL && (c)->request_id == 0 && (c)->send_aio == NULL && (c)->recv_aio == NULL && MSG_OPT((c)->rep_msg) && NODE_IDLE(&(c)->send_node))
-#define PC_KPRE_3(c) (CTX_OK(c) && (c)->req_retry > 0 && (c)->request_id >= 0x80000000u && (c)->send_aio == NULL && AIO_OPT((c)->recv_aio) && (c)->rep_msg == NULL && MSG_PRE((c)->req_msg) && (c)->req_msg->m_refcnt.v < 1000 && NODE_IDLE(&(c)->send_node))
-#define PC_KPRE_4(c) (CTX_OK(c) && (c)->req_retry > 0 && (c)->request_id >= 0x80000000u && (c)->send_aio == NULL && AIO_OPT((c)->recv_aio) && (c)->rep_msg == NULL && MSG_PRE((c)->req_msg) && (c)->req_msg->m_refcnt.v < 1000)
+#define PC_KPRE_3(c) (CTX_OK(c) && (c)->req_retry > 0 && (c)->request_id >= 0x80000000u && (c)->send_aio == NULL && AIO_OPT((c)->recv_aio) && (c)->rep_msg == NULL && MSGOBJ_PRE((c)->req_msg) && NODE_IDLE(&(c)->send_node))
+#define PC_KPRE_4(c) (CTX_OK(c) && (c)->req_retry > 0 && (c)->request_id >= 0x80000000u && (c)->send_aio == NULL && AIO_OPT((c)->recv_aio) && (c)->rep_msg == NULL && MSGOBJ_PRE((c)->req_msg))
 #define PC_KPRE_(k, c) PC_KPRE_##k(c)
 #define PC_KPRE(k, c) PC_KPRE_(k, c)
 /* --- what the property says happens to a context of each kind --- */
@@ -347,7 +350,12 @@ __CPROVER_ensures(g_fin_calls == OLD(g_fin_calls))
 /* no pipe is ready: every outstanding request with resending enabled waits on the send queue, once, in order;
  * nothing goes on the wire; the retry schedule is as before */
 __CPROVER_ensures(g_pipe_send_calls == OLD(g_pipe_send_calls) && LIST_IS_EMPTY(&SOCK->ready_pipes) && LIST_IS_EMPTY(&SOCK->busy_pipes))
+#if PC_Q2 && PC_RQ1
+/* (the one that was waiting already stays ahead of the one re-queued now) */
+__CPROVER_ensures(LIST_IS_TWO(&SOCK->send_queue, &C2->send_node, &C1->send_node))
+#else
 __CPROVER_ensures(LIST_BY(&SOCK->send_queue, (PC_Q1 || PC_RQ1), &C1->send_node, (PC_Q2 || PC_RQ2), &C2->send_node))
+#endif
 __CPROVER_ensures(LIST_BY(&SOCK->retry_queue, PC_R1, &C1->retry_node, PC_R2, &C2->retry_node))
 #if PC_N >= 1 && PC_K1 >= K_R1
 __CPROVER_ensures(NODE_IDLE(&C1->pipe_node) && C1->req_msg->m_refcnt.v == OLD(C1->req_msg->m_refcnt.v))
